@@ -6,7 +6,7 @@ def run(tier, seed):
     q = tier == "quick"
     return _func.run(
         "C13", tier, seed, emitters=[("MC_Loss", _loss.MC % ("C13", 8), "MC_Loss_C13")], extras=lambda s: [],
-        prepare=_loss.prepare(450 if q else 0), sig=_loss.sig,
+        prepare=_loss.prepare(900 if q else 0), sig=_loss.sig,
         rule="TLC enumerates ODE / stationary / non-stationary systems x 1..3 equations x 1..3 unknowns x key naming (equal, different, "
              "overlapping) x scalar / per-key dict weights x initial-condition and observation patterns per unknown (none, first, all) x "
              "boundary conditions x parameter batch; equations are asymmetric in t and x and involve every unknown; expected = "
